@@ -315,7 +315,7 @@ func (g *Gen) applyContract(fc *FuncContract, key string, sig *types.Signature, 
 			}
 		}
 	}
-	if fc.Opts["pure"] != "true" {
+	if fc.Opts["pure"] != "true" && fc.Opts["noalloc"] != "true" {
 		oa := g.heapGet(g.cur, "$alloc")
 		na := g.heapHavoc(g.cur, "$alloc")
 		g.assume(fmt.Sprintf("(<= %s %s)", oa, na))
